@@ -93,6 +93,29 @@ def random_systems(chk, n_sys, seed):
                                                             else 1e-4 * (np.linalg.norm(Ae, 2) * np.linalg.norm(x) + np.linalg.norm(b)))
                 if not (np.isfinite(x).all() and res <= tol * (np.sqrt(n) if solver != "LU" else 1.0)):
                     chk.kernel_violation(("lin.random.residual", solver), {"n": n, "residual": float(res), "tol": float(tol), "trans": trans})
+        if k % 2 == 0:
+            # KKT-like symmetric indefinite matrix with tiny (non-zero) Hessian diagonal and O(1) coupling: moderate condition
+            m = int(rng.integers(2, 8))
+            Jq, _ = np.linalg.qr(rng.standard_normal((m, m)))
+            Jm = Jq * np.exp(rng.uniform(0, np.log(30.0), size=m))
+            eps = 10.0 ** rng.uniform(-14, -8, size=m)
+            K = np.block([[np.diag(eps), Jm.T], [Jm, -np.diag(10.0 ** rng.uniform(-12, -6, size=m)) * (k % 4 == 0)]])
+            bb = rng.standard_normal(2 * m)
+            for symflag in (True, False):
+                for trans in (False, True):
+                    fmt = ("coo", "csr", "csc")[(k // 2) % 3]
+                    try:
+                        xk = linear_solver(sps.coo_matrix(K).asformat(fmt), SOLVERS["LU"], symmetric=symflag).solve(bb, trans=trans)
+                    except LinearSolverError:
+                        chk.kernel_violation(("lin.kkt.lu.raised", "LU"), {"m": m, "symmetric": symflag})
+                        continue
+                    Ke = K.T if trans else K
+                    res = np.abs(Ke @ xk - bb).max()
+                    scale = np.abs(Ke).sum(axis=1).max() * np.abs(xk).max() + np.abs(bb).max()
+                    chk.case(("kkt", k, symflag, trans))
+                    if not (np.isfinite(xk).all() and res <= 1e-11 * scale):
+                        chk.kernel_violation(("lin.kkt.backward_error", "LU", symflag),
+                                             {"m": m, "residual": float(res), "scale": float(scale), "symmetric": symflag, "trans": trans})
         if k % 5 == 0:   # structurally singular: an empty row
             As = A.copy()
             As[n // 2, :] = 0.0
